@@ -311,15 +311,23 @@ func Gen(r *hx.Run) {
 		w.xws(msgs)
 		r.Count("op.xws")
 	}
-	// bursts: several large messages sent back to back before the other side reads any of them
+	// bursts: several large messages sent back to back before the other side reads any of them. The send buffer holds
+	// 1 MiB and a write that does not fit is cut short without notice (the recorded finding), so random bursts stay
+	// below that in total - whether an earlier message has been acknowledged by then depends on timing - and the
+	// finding itself is replayed, on every run, with one message larger than the empty buffer.
 	n = r.Pick(2, 10)
 	for i := 0; i < n; i++ {
 		var msgs []wsMsg
-		k := 2 + rr.Intn(6)
 		size := []int{70000, 200000, 300000, 400000}[rr.Intn(4)]
+		k := 2 + rr.Intn(6)
+		for k*(size+1000) > 900000 {
+			k--
+		}
+		if k < 1 {
+			k = 1
+		}
 		if i == 0 {
-			// the recorded finding's input, on every run: more than the send buffer holds
-			k, size = 6, 400000
+			k, size = 1, 1200000
 		}
 		for j := 0; j < k; j++ {
 			msgs = append(msgs, wsMsg{dir: 'b', seed: rr.Intn(256), n: size + rr.Intn(1000)})
